@@ -10,7 +10,8 @@ META = {
     "separator positions (3^k) for a route family of each hop count; auto_slot shortcuts through parse_connection_path and the "
     "three driver constructors. Invalid strings: every single deletion / duplication / replacement of a segment or separator "
     "of each valid family member, unknown aliases, links 256/-1/empty/partial quads, TCP ports 0/65535/65536/-1/non-numeric/empty. "
-    "Oracle: reference grammar parser -> (host, port, route); route bytes == reference bytes and parse back (C09 parser). "
+    "Histories: results of earlier parses mutated by the caller; every ordered pair of (string, entry point in {parse with/without slot shortcut, "
+    "CIPDriver, LogixDriver, SLCDriver}) over 7 strings, the second call judged as if made alone. Oracle: reference grammar parser -> (host, port, route); route bytes == reference bytes and parse back (C09 parser). "
     "distinct = distinct string.",
     "explanation": "bounded-exhaustive enumeration of the path grammar and its single-edit neighbourhood",
     "assumptions": [
@@ -91,7 +92,7 @@ def route_families():
 
 
 def shards(tier, seed):
-    return [("product1",), ("product2", 0), ("product2", 1), ("product2", 2), ("product2", 3), ("diag",), ("seps",), ("autoslot",), ("edits",), ("tcp",), ("drivers",), ("history",), ("routestr",)]
+    return [("product1",), ("product2", 0), ("product2", 1), ("product2", 2), ("product2", 3), ("diag",), ("seps",), ("autoslot",), ("edits",), ("tcp",), ("drivers",), ("history",), ("pairs",), ("routestr",)]
 
 
 def describe(tier, seed):
@@ -260,6 +261,35 @@ def run_shard(shard, tier, seed):
                 except Exception:  # noqa
                     pass
                 expect_valid(rep, path, host, tcp, segs, auto, f"history/{mutate}")
+    elif k == "pairs":
+        # E2, depth 2: every ordered pair of (string, entry point); the second call must behave as documented whatever came first
+        import pycomm3
+        from pycomm3.cip_driver import parse_connection_path
+
+        strings = [("10.0.0.1", None, []), ("10.0.0.1", None, ["3"]), ("10.0.0.1", 2222, ["5"]), ("plc-1.local", None, ["bp", "0"]), ("10.0.0.1", None, ["bp", "1", "enet", "10.11.12.13"]),
+                   ("10.0.0.1", None, ["bp"]), ("plc-1.local", 44818, ["12"])]
+        entries = [("parse", False), ("parse", True), ("CIPDriver", False), ("LogixDriver", True), ("SLCDriver", True)]
+
+        def first(path, entry):
+            try:
+                if entry[0] == "parse":
+                    parse_connection_path(path, entry[1])
+                else:
+                    getattr(pycomm3, entry[0])(path)
+            except Exception:  # noqa
+                pass
+
+        for (h1, t1, s1), e1 in itertools.product(strings, entries):
+            p1 = mk(h1, t1, s1, ["/"] * len(s1))
+            for (h2, t2, s2), auto2 in itertools.product(strings, (False, True)):
+                for seps in (["/"] * len(s2), ["\\"] * len(s2)):
+                    p2 = mk(h2, t2, s2, seps)
+                    first(p1, e1)
+                    valid = len(s2) % 2 == 0 or (auto2 and len(s2) == 1 and s2[0].isdigit())
+                    if valid:
+                        expect_valid(rep, p2, h2, t2, s2, auto2, f"pairs/after-{e1[0]}")
+                    else:
+                        expect_invalid(rep, p2, auto2, "odd-segments-after-" + e1[0])
     elif k == "routestr":
         # route strings handed to generic_message(route_path=<str>) use the same grammar (no host part)
         from pycomm3.cip_driver import parse_cip_route
